@@ -278,7 +278,7 @@ PROPS["C02"] = {
     "level_text": ("A zone model (owners with escaped/binary labels, wildcards, empty non-terminals, secure and insecure delegations with glue, DNAMEs, CNAMEs; NSEC3 salt/iterations/opt-out) renders the genuine NSEC and NSEC3 chains and answers 'what is true for (name, type)' straight from RFC 1034/4592/6672. "
                    "Each case hands a generated subset, rotation and pollution of those chains (records of sibling/ancestor zones incl. escaped-dot look-alikes, a second chain with other NSEC3 parameters, another class, a child zone's records), after the same FilterRRsToZone step Resolver.authority applies, to VerifyNameErrorNSEC, VerifyNODATANSEC, VerifyDelegationNSEC, EvaluateAggressiveNSEC(+Prepared), VerifyNameErrorForZoneWithWork, VerifyNODATAForZoneWithWork, VerifyDelegationForZoneWithWork and EvaluateAggressiveNSEC3 for a generated question aimed at owners, ENTs, names below cuts/DNAMEs, wildcard-covered and absent names. "
                    "Whenever one of them accepts, the zone must agree: NXDOMAIN only for names that do not exist and are not wildcard-matched, NODATA only where the type (and CNAME) is absent and the name is not below a cut or DNAME, 'insecure delegation' only for a delegation without DS; secure=true and every RFC 8198 synthesis is judged strictly, secure=false may lean on an opt-out span only where the signed part of the zone proves nothing to the contrary; mixed NSEC3 parameter/class sets must be refused; RFC 8198 synthesis must not cover the next-closer or wildcard name with an opt-out span. "
-                   "Unit 'exhaustive' enumerates instead of sampling: all well-formed zones with up to three owners from {a, b, a.a, b.a, *.a} in every role (data, insecure / secure delegation, DNAME, CNAME), every subset of their NSEC chains, the NSEC3 chain with each single record removed, every question name over {a, b, c} to depth 2 plus selected depth-3 names, types A / DS / NS - the same judge. Unit 'order' checks CanonicalCompare, nsecCovers and NameInZone against references written from RFC 4034 §6.1. Exploration."),
+                   "Unit 'exhaustive' enumerates instead of sampling: all well-formed zones with up to three owners from {a, b, a.a, b.a, *.a} in every role (data, insecure / secure delegation, DNAME, CNAME), every subset of their NSEC chains, the NSEC3 chain with each single record removed, every question name over {a, b, c} to depth 2 plus selected depth-3 names, types A / DS / NS - the same judge. Unit 'order' checks CanonicalCompare, nsecCovers and NameInZone against references written from RFC 4034 §6.1. Asterisk labels are generated anywhere in an owner name (RFC 4592), so wildcards occur that exist only as empty non-terminals - a source of synthesis that matches and holds nothing - and empty non-terminals occur next to wildcards; one NSEC case in eight the question is asked in class CH against the class-IN chain, or the chain is given as a class-CH copy, and then nothing may be accepted. Unit 'wildcard' expands one of the zone's wildcard RRsets over a generated name below the wildcard's parent (the RRSIG Labels field names the wildcard), puts a generated subset of the zone's genuine NSEC or NSEC3 chain into the authority section and calls VerifyWildcardAnswerForZoneWithWork: acceptance with secure=true is right only if the zone itself answers that name from that wildcard. Exploration."),
     "level_note": "Trusted: the zone model (vfmodel) as ground truth and miekg/dns NSEC3 hashing. Records are unsigned at this level - the signature/signer binding that precedes the verifiers is C01/C14 territory, which is why in-zone forged records are not generated. Unit 'synthesis' (the resolver-world lifetime / provenance test, shared with C04 and C19) covers the cache side: on the real stack with real signatures, every negative answer composed from cache - exact entries and RFC 8198 syntheses from proofs admitted at different times - must carry the zone's true rcode, records no authority ever sent may not appear, no record may outlive its TTL and the whole answer not its shortest piece. Incomplete or tampered proofs ending in SERVFAIL rather than a denial is C01's oracle. Admission orders of the subtree-cut cache are exercised only as far as these histories reach them. NSEC3 hash collisions are not generated.",
     "rule": ("evaluations = (zone, record set, question) cases, each put to every verifier. Non-trivial = some verifier accepted, or the record set was a strict subset or polluted; distinct = hash(truth class, qtype, chain size, records given, accepted, polluted/mixed, parameters)."),
     "units": {
@@ -286,7 +286,10 @@ PROPS["C02"] = {
         "synthesis": {"pkg": "./server", "run": "^TestVerifC04World$", "tiers": {"quick": T(1200, 8, timeout=900), "thorough": T(40000, 12, timeout=3400)}},
         "nsec": {"pkg": "./middleware/resolver/dnssec", "run": "^TestVerifC02NSEC$",
                  "tiers": {"quick": T(15000, 6, timeout=600), "thorough": T(600000, 10, timeout=3400)},
-                 "floors": {"C02.nsec": {"truth:ent": 0.02, "truth:referral": 0.02, "truth:dname": 0.005, "polluted": 0.1, "accepted": 0.2, "partial-chain": 0.3}}},
+                 "floors": {"C02.nsec": {"truth:ent": 0.02, "truth:referral": 0.02, "truth:dname": 0.005, "polluted": 0.1, "accepted": 0.2, "partial-chain": 0.3, "foreign-class": 0.08, "truth:ent+wildcard": 0.001}}},
+        "wildcard": {"pkg": "./middleware/resolver/dnssec", "run": "^TestVerifC02Wildcard$",
+                     "tiers": {"quick": T(15000, 6, timeout=600), "thorough": T(600000, 10, timeout=3400)},
+                     "floors": {"C02.wildcard": {"accepted-genuine-expansion": 0.02, "truth:nodata": 0.03, "truth:nxdomain": 0.05, "nsec3": 0.3}}},
         "nsec3": {"pkg": "./middleware/resolver/dnssec", "run": "^TestVerifC02NSEC3$",
                   "tiers": {"quick": T(6000, 6, timeout=600), "thorough": T(200000, 10, timeout=3400)},
                   "floors": {"C02.nsec3": {"truth:ent": 0.02, "truth:referral": 0.02, "opt-out-zone": 0.15, "mixed-parameters": 0.1, "accepted": 0.1}}},
